@@ -14,6 +14,7 @@ import (
 	"github.com/cnotch/ipchub/provider/auth"
 	"github.com/cnotch/ipchub/service/flv"
 	"github.com/cnotch/ipchub/service/hls"
+	"github.com/cnotch/ipchub/utils"
 
 	"github.com/cnotch/apirouter"
 	"github.com/cnotch/ipchub/utils/scan"
@@ -133,9 +134,15 @@ func permissionInterceptor(w http.ResponseWriter, r *http.Request) bool {
 }
 
 // 提取请求路径中的流path和格式后缀
+// The stream path is returned in canonical form, the form streams are registered
+// and looked up under (media.Get). The permission check and every handler take
+// the path from here, so the path that is authorized is the path that is served,
+// however the request spelled it: "/a/../b" ("/a/%2e%2e/b", or as written in a
+// CONNECT request, which ServeMux does not clean) must not pass as "/a/*" and
+// then play "/b".
 func extractStreamPathAndExt(requestPath string) (streamPath, ext string) {
 	ext = path.Ext(requestPath)
 	_, token, _ := scan.NewScanner('/', nil).Scan(requestPath[1:])
-	streamPath = requestPath[1+len(token) : len(requestPath)-len(ext)]
+	streamPath = utils.CanonicalPath(requestPath[1+len(token) : len(requestPath)-len(ext)])
 	return
 }
